@@ -19,6 +19,7 @@ soundness of the later-vertices-only scan) and that the certificate implies a ti
 topology, cited and not formalised; they are decided on the implementation by the oracle run.
 -/
 import ScadVerif.Lemmas.TriLemmas
+import ScadVerif.Lemmas.MeshLemmas
 namespace ScadVerif.C03
 open ScadVerif ScadVerif.Tri ScadVerif.TriLemmas ScadVerif.Spec
 
@@ -157,6 +158,29 @@ theorem complete_ccw_positive (vs : List (Pt2 ℝ)) (poly : Poly ℝ) (hc : Cons
   obtain ⟨i, j, k, rfl, h⟩ := triangulate_orientation vs poly hc t ht
   rw [hccw, isCcw_iff] at h
   exact ⟨i, j, k, rfl, h⟩
+
+/-- **C03, edge certificate of complete runs.** Whenever n-2 triangles come out, their directed edges
+are: every boundary edge of the polygon exactly as often as it occurs in the outline (in list
+direction) plus edges that are matched by their reverse — for every input, simple or not.  Together
+with `complete_area` and `triangulate_orientation` this is the whole tiling certificate the oracle
+evaluates, except for "no two triangles overlap", which for same-signed triangles whose areas sum to
+the polygon's area is equivalent to covering. -/
+theorem complete_edges (vs : List (Pt2 ℝ)) (hn : 2 ≤ vs.length)
+    (hc : (triangulate (indexed vs)).length = 3 * (vs.length - 2)) :
+    MeshLemmas.EdgeClosed (allEdges (Dim3.triFaces 0 (triangulate (indexed vs))) ++
+      (MeshLemmas.ringF vs.length 0).map Prod.swap) := by
+  have := MeshLemmas.cap_forward vs 0 hn hc
+  have hs : (MeshLemmas.ringF vs.length 0).map (MeshLemmas.shift 0) = MeshLemmas.ringF vs.length 0 := by
+    conv_rhs => rw [← List.map_id (MeshLemmas.ringF vs.length 0)]
+    apply List.map_congr_left
+    intro e _; cases e; simp [MeshLemmas.shift]
+  rwa [hs] at this
+/-- … and for the reversed list (`triangulate2d_rev`): the boundary is the ring backwards -/
+theorem complete_edges_rev (vs : List (Pt2 ℝ)) (hn : 2 ≤ vs.length)
+    (hc : (triangulate (indexed vs).reverse).length = 3 * (vs.length - 2)) :
+    MeshLemmas.EdgeClosed (allEdges (Dim3.triFaces 0 (triangulate (indexed vs).reverse)) ++
+      MeshLemmas.ringF vs.length 0) :=
+  MeshLemmas.cap_backward vs hn hc
 
 /-- the public entry points: `triangulate2d` on the list, `triangulate2d_rev` on the reversed list,
 both rejecting fewer than four vertices (the `assert!`) -/
